@@ -90,8 +90,8 @@ TEXT.update({
   note="C04_domain states the domain as a computable condition dom o T (defined types have no TypeSchemas entry, marshaler types have their string entry, no embedded struct replaced, unexported embedded types carry no json name) plus wt on values; the per-struct side conditions are proved for every type (json_fields_ok, json_fields_ext, json_fields_local). IgnoreInvalidTypes off, default debug setting. big.Int is a known finding (O-7b).",
  ),
  "C09": dict(
-  level="Theorem C09_scalar_verdict: for bool, every integer kind, floats and strings the inferred schema's verdict on ANY JSON value equals decodes_scalar - the right JSON type and, for sized integers, the exact range of the kind (exact-verdict lemma leaf_verdict over the specification function). For composite types the property is decided by the correspondence law on the real decoder: every single-point mutation of an encoding that the inferred schema accepts must decode into the type with DisallowUnknownFields; the schema side of that law (which documents are accepted) is compared with the model.",
-  note="Partial: encoding/json's decoder is the oracle, not modelled; composite types by differential law only. Known findings O-9a (float32 range), O-9b (unexported embedded pointer).",
+  level="Theorems: C09_verdict - for every type of the computable domain dom (all kinds incl. nested structs with embedding, pointers, slices, arrays, maps, any, marshaler types under string entries) the verdict of the schema ForType returns, on ANY JSON value, at any location and dynamic scope, is conforms(type, value): a computable function of the Go type alone (the JSON shape of the type: right JSON type, exact range of a sized integer, array length, every element/member value conforming in turn, no undeclared struct member, every member without omitempty/omitzero present, null only behind a pointer or for a slice); C09_end_to_end - For, then Resolve, then Validate returns nil exactly when conforms holds; C09_encodings_conform - every encoding of a typed value conforms (C04 read through C09); C09_scalar_verdict (scalars, any options). So what the inferred schema accepts is known exactly, for all inputs. That conforming documents decode is decided on the real decoder: every single-point mutation of an encoding that the inferred schema accepts must decode into the type with DisallowUnknownFields, and the package's verdicts on those documents are compared both with the model's Validate and with conforms itself (spec_mv / spec_v oracles).",
+  note="Partial: encoding/json's decoder is the oracle of 'decodes into T', not modelled; the theorem fixes the accepted set, the law checks the decoder on sampled members of it. Known findings O-9a (float32 range), O-9b (unexported embedded pointer).",
  ),
  "C16": dict(
   level="Theorems: C16_struct_fields - the properties of a struct's schema are exactly the fields encoding/json selects (json_fields, itself validated against the real encoder), under their JSON names, in field order (PropertyOrder), each with the field type's inferred schema, required exactly without omitempty/omitzero, additionalProperties false; C16_names_distinct; C16_cycle (a defined type met again during its own inference is an error at once); C16_nothing_dropped (IgnoreInvalidTypes off). Determinism and freshness hold in the model by construction (a function returning an immutable tree) and are decided for the package by laws of family infer: two calls give equal documents, no *Schema is shared between results, within a result or with TypeSchemas (reflection over all fields), Resolve accepts the result, names/order/required against the real encoder.",
